@@ -151,6 +151,13 @@ Definition parse_boolean (s : string) : option bool :=
   else if (String.eqb l "true" || String.eqb l "1")%bool then Some true
   else None.
 
+(* the lexical space of xsd:boolean (XML Schema Part 2, 3.2.2.1): exactly true, false, 1, 0 — an independent reader (the
+   specification readers XmlSpec, JsonSpec, ProvnSpec) does not share prov.model.parse_boolean's case-insensitivity ("True" is not an xsd:boolean) *)
+Definition xsd_boolean (s : string) : option bool :=
+  if (String.eqb s "false" || String.eqb s "0")%bool then Some false
+  else if (String.eqb s "true" || String.eqb s "1")%bool then Some true
+  else None.
+
 (* ---- ISO-8601 date-times: datetime.isoformat() and the ISO subset of
    dateutil.parser.parse ---- *)
 Definition pad (w : nat) (z : Z) : string :=
